@@ -101,6 +101,7 @@ def handle (op : String) (args : List String) : Option String :=
         let st ← flt; let i ← nat; let a ← list flt; let z ← list nat; pure (st, i, a, z)) args
       let (bs, s') := Halton.drawMany (Halton.rPoint Float.ofNat (fun x => x - Float.floor x) start alphas) 0 idx sizes
       pure (" | ".intercalate (bs.map (fun b => joinSp (b.map fl))) ++ s!" | cursor {s'}")
+  | "cal.run" => Drv.Cal.handle args
   | "ss.check" => do
       let (b, p) ← run (do let b ← list (list flt); let p ← list flt; pure (b, p)) args
       match SearchSpace.checkBounds (0.0 : Float) b p with
